@@ -20,7 +20,7 @@ RULE = (
     "buffered publication or interval. distinct = JSON."
 )
 ASSUMPTIONS = [
-    "values are finite floats with |v| <= 1e6, scaled by 10^k (k in {-12,-9,0,9}); linear interpolation compared with tolerance 1e-12 relative to max(|v|, 10^k); the other adapters exactly",
+    "values are floats with |v| <= 1e6 scaled by 10^k (k in {-12,-9,0,9}), or NaN / +-inf (gaps); finite expectations of linear interpolation are compared with tolerance 1e-12 relative to max(|v|, 10^k), everything else exactly (NaN == NaN)",
     "request times are exact on a microsecond lattice (fractions with denominators dividing the gap)",
     "request times are non-decreasing (documented usage); publications strictly increasing",
 ]
@@ -52,6 +52,12 @@ def reference(kind, p, pubs, t):
     return (v1 if float(frac) > p else v0), v0
 
 
+def _bracket(pubs, t):
+    """times of the publications bracketing t"""
+    j = next((i for i, (ti, _v) in enumerate(pubs) if ti > t), len(pubs) - 1)
+    return {pubs[max(j - 1, 0)][0], pubs[j][0]}
+
+
 def check(case, ctx):
     import finam as fm
 
@@ -59,7 +65,10 @@ def check(case, ctx):
     kind = spec[0]
     p = spec[1] if kind == "step" else None
     g = fm.UniformGrid((3, 2)) if grid else fm.NoGrid()
-    link = hs.Link(fm.Info(time=hs.T0, grid=g, units="m"), [fm.Info(time=hs.T0, grid=g, units="m")], chain=[spec])
+    un = case.get("units", "m")  # also units with an offset (degC, degF): differences of such quantities are deltas
+    if un != "m":
+        ctx.event(f"units={un!r}")
+    link = hs.Link(fm.Info(time=hs.T0, grid=g, units=un), [fm.Info(time=hs.T0, grid=g, units=un)], chain=[spec])
     link.connect()
     inp = link.inputs[0]
     # unit of the publication gaps: a minute (default), a second, a millisecond, a microsecond (request times are then
@@ -124,7 +133,19 @@ def check(case, ctx):
         want = np.asarray(_payload(exp, grid, vscale), dtype=float).reshape(m.shape[1:] if m.ndim else ())
         got = m[0] if m.ndim else m
         tol = 1e-12 * max(vscale, abs(scale)) if kind == "lin" else 0.0
-        if got.shape != np.shape(want) or not np.allclose(got, want, rtol=0, atol=tol):
+        on_publication = any(t == ti for ti, _ in pubs)
+        if kind == "lin" and not on_publication and not all(np.isfinite(v) for ti, v in pubs if ti in _bracket(pubs, t)):
+            # strictly inside an interval with a gap (NaN, +-inf) at one end the interpolant is not defined by the
+            # statement (its value depends on how the formula is written): not judged
+            ctx.event("interpolation-across-a-gap(not judged)")
+            same = True
+        elif not np.all(np.isfinite(want)):
+            # a published gap comes back untouched: at its publication time, and from next / previous / step
+            same = got.shape == np.shape(want) and np.array_equal(got, want, equal_nan=True)
+            ctx.event("non-finite-expected")
+        else:
+            same = got.shape == np.shape(want) and np.allclose(got, want, rtol=0, atol=tol)
+        if not same:
             on_pub = any(t == ti for ti, _ in pubs)
             tag = f"{kind}-at-publication" if on_pub else f"{kind}-value"
             ctx.violation(tag, f"{kind}{'' if p is None else p}: request at {rel(t)} units -> {got.ravel()[:2]}, definition {np.ravel(want)[:2]}; pubs {[(rel(a), b) for a, b in pubs][-6:]}")
@@ -145,7 +166,10 @@ def check(case, ctx):
 
 value_st = st.one_of(
     st.integers(-1000, 1000).map(float),
+    st.integers(-1000, 1000).map(float),
     st.floats(min_value=-1e6, max_value=1e6, allow_nan=False, allow_infinity=False, width=64),
+    st.floats(min_value=-1e6, max_value=1e6, allow_nan=False, allow_infinity=False, width=64),
+    st.sampled_from(["nan", "inf", "-inf"]),  # gaps in the data (strings keep the case files plain JSON)
 )
 step_pos = st.one_of(
     st.sampled_from([0.0, 0.25, 0.3, 0.5, 0.7, 1.0]),
@@ -168,7 +192,8 @@ def case_st(draw, max_ops=30):
         k = draw(st.integers(0, 9))
         ops.append(draw(push_st if k < 4 else (pull_st if k < 9 else out_st)))
     return {"adapter": draw(adapter_st), "grid": draw(st.booleans()), "ops": ops, "vexp": draw(st.sampled_from([0, 0, 0, -9, -12, 9])),
-            "unit_us": draw(st.sampled_from([None, None, None, 1, 1, 1000, 1000000]))}
+            "unit_us": draw(st.sampled_from([None, None, None, 1, 1, 1000, 1000000])),
+            "units": draw(st.sampled_from(["m", "m", "m", "degC", "degF", ""]))}
 
 
 @st.composite
